@@ -401,11 +401,14 @@ class ESME:
         # and writing can be resumed.
         # When there is nothing to wait for, the drain() returns immediately.
         # ref: https://docs.python.org/3/library/asyncio-stream.html#asyncio.StreamWriter.drain
-        assert isinstance(self._writer, StreamWriter)  # For type checkers
-        self._writer.write(pdu)
+        writer: Optional[StreamWriter] = self._writer
+        if writer is None:
+            # The connection was dropped while the hook was running
+            raise ConnectionError('Not connected to SMSC')
+        writer.write(pdu)
         async with self._drain_lock:
             # see: https://github.com/komuw/naz/issues/114
-            await self._writer.drain()
+            await writer.drain()
 
         self._logger.debug(
             'Sent SMPP message',
